@@ -92,6 +92,17 @@ func (p *leqProver) capBy(v, y, a ssa.Value, at *ssa.BasicBlock) bool {
 	if k, ok := v.(*ssa.Const); ok && k.Value != nil && k.Int64() == 0 {
 		return true
 	}
+	// the cap written with the builtin: min(w, y − a) ≤ y − a
+	if call, isCall := v.(*ssa.Call); isCall {
+		if b, isB := call.Call.Value.(*ssa.Builtin); isB && b.Name() == "min" {
+			for _, arg := range call.Call.Args {
+				if isDiff(arg) || p.deep < 10 && p.capBy(arg, y, a, at) {
+					return true
+				}
+			}
+			return false
+		}
+	}
 	ph, ok := v.(*ssa.Phi)
 	if !ok {
 		// a plain value guarded by a dominating comparison with the difference
@@ -169,6 +180,15 @@ func (p *leqProver) leq(x, y ssa.Value, at *ssa.BasicBlock) bool {
 		return true
 	}
 	switch v := x.(type) {
+	case *ssa.Call:
+		// min(a, b) ≤ y when either operand is
+		if b, isB := v.Call.Value.(*ssa.Builtin); isB && b.Name() == "min" {
+			for _, arg := range v.Call.Args {
+				if p.leq(arg, y, at) {
+					return true
+				}
+			}
+		}
 	case *ssa.Phi:
 		p.hyp[v] = true
 		defer delete(p.hyp, v)
@@ -246,7 +266,8 @@ func runC45(c *Ctx) {
 		var updates []*ssa.MapUpdate
 		for _, in := range fnInstrs(dist) {
 			if mu, ok := in.(*ssa.MapUpdate); ok {
-				if _, isMM := rootValue(mu.Map, 0).(*ssa.MakeMap); isMM {
+				t := trace(mu.Map)
+				if _, isMM := rootValue(mu.Map, 0).(*ssa.MakeMap); isMM || t == "makemap" || strings.HasPrefix(t, "DelegatorRewards<") {
 					updates = append(updates, mu)
 				}
 			}
@@ -427,6 +448,16 @@ func runC45(c *Ctx) {
 				if inLoop(mu.Block()) {
 					if _, isPhi := mu.Value.(*ssa.Phi); isPhi {
 						okCap = true
+					}
+					// the cap written as min(share, pot − distributed)
+					if call, isCall := mu.Value.(*ssa.Call); isCall {
+						if b, isB := call.Call.Value.(*ssa.Builtin); isB && b.Name() == "min" {
+							for _, a := range call.Call.Args {
+								if d, isD := a.(*ssa.BinOp); isD && d.Op == token.SUB && isPot(d.X) {
+									okCap = true
+								}
+							}
+						}
 					}
 					for _, in2 := range mu.Block().Instrs {
 						if bo, ok := in2.(*ssa.BinOp); ok && bo.Op == token.ADD && bo.Y == mu.Value {
